@@ -1,4 +1,18 @@
-"""C06  Boundary normals are finite outward unit vectors."""
+"""C06  Boundary normals are finite outward unit vectors.
+
+Three kinds of cases, all executing the REAL torchphysics code symbolically:
+
+normal/...    end to end: the library's own boundary sampler (symbolic draws) -> boundary.normal -> oracle.
+generic/...   the GENERIC boundary point of a primitive piece (polygon edge a+t(b-a), t in [0,1] symbolic: edge
+              interior, corner zones and both corners; circle/sphere c+r*w, |w|=1; interval end point), built by
+              the harness from the symbolic shape parameters -> boundary.normal -> oracle.  Used where the end to
+              end query is beyond the solver (polygon samplers: 4 clamps + 2 square roots in front of 4 isclose
+              forks), together with
+sampled/...   the link: every point the real boundary sampler returns lies EXACTLY on one of those pieces
+              (so the generic point ranges over everything the sampler can return).
+abstract/...  the composition layer (union/cut/intersection normal) on ARBITRARY operands (stubs with free
+              symbolic membership answers and free symbolic normals): inductive step for arbitrary nesting.
+"""
 from __future__ import annotations
 
 import torch
@@ -7,6 +21,7 @@ from torchphysics.problem.spaces.points import Points
 
 from symtorch.harness import Case
 from oracle import normals as N
+from oracle import sets as O
 from . import shapes as SH
 
 TAU = 2e-4       # band between 'edge interior' and 'corner zone' (edge parameter); margin for Boolean operand selection
@@ -14,13 +29,15 @@ UNIT_TOL = 1e-6
 
 META = dict(
     level="model_checking",
-    bounds="boundary points produced by the library's own boundary samplers (sample_random_uniform with every draw symbolic, "
-           "sample_grid) followed by boundary.normal: Interval (boundary, boundary_left, boundary_right), Circle, Parallelogram "
-           "(both vertex orientations, as two sign cases of the determinant), Triangle (counter-clockwise as documented; clockwise "
-           "in the separate families */cw = documented precondition violated), all shape parameters symbolic; union/cut/"
-           "intersection normals on ARBITRARY operands (assume-guarantee step for arbitrary nesting); quick: n<=2 points "
-           "(polygons: n=1 random, grid n<=2 = corners), Boolean ops of two intervals; thorough: Sphere, parameter-dependent shapes with "
-           "k=2 parameter rows, one Boolean operation of Circle/Parallelogram operands, nesting depth 2",
+    bounds="boundary.normal at (a) the points returned by the library's own boundary samplers (sample_random_uniform with every "
+           "draw symbolic, sample_grid): Interval (boundary, boundary_left, boundary_right), Circle, thorough: Sphere, "
+           "parameter-dependent Interval/Circle/Sphere with k=2 parameter rows, Boolean operations of intervals and of circles; "
+           "(b) the generic boundary point of every piece (each polygon edge with a symbolic edge parameter in [0,1] incl. both "
+           "corners; circle; interval end) of Parallelogram (both vertex orientations = two sign cases of the determinant), Triangle "
+           "(counter-clockwise as documented; clockwise in the separate families */cw = documented precondition violated), thorough: "
+           "parameter-dependent polygons k=2, one Boolean operation of Circle/Parallelogram operands, nesting depth 2; linked to the "
+           "samplers by (c) every point returned by the real polygon boundary samplers lies exactly on an edge; (d) union/cut/"
+           "intersection normals on ARBITRARY operands (assume-guarantee step for arbitrary nesting); all shape parameters symbolic",
     outside=["points not produced by the samplers", "shapely/trimesh primitives", "float rounding (NaNs that arise only from rounding)",
              "points within 2e-4 (absolute for intervals/balls, barycentric for polygons) of the boundaries of BOTH operands of a "
              "Boolean combination (crossing points)",
@@ -29,8 +46,117 @@ META = dict(
     assumptions=["shapes have positive measure (radius > 0, lb < ub, det != 0)",
                  "Interval and Boolean combinations: |shape parameters| <= 16 (isclose has a relative tolerance)",
                  "polygon edge-normal claim only for points whose edge parameter is farther than 2e-4 from both corners; within the "
-                 "corner zones the normal must lie in the closed normal cone of the adjacent edges and a step against it must enter"],
+                 "corner zones the normal must lie in the closed normal cone of the adjacent edges and a step against it must enter",
+                 "concrete Boolean combinations: polygon operands counter-clockwise (the clockwise defect is reported on the primitive)"],
 )
+
+POLY = ("Parallelogram", "Triangle")
+
+
+# ---- expressions: ("Circle", "A") | (op, e1, e2) ------------------------------------------
+
+
+class Node:
+    def __init__(self, kind, sh, affs=None, a=None, b=None, tag=None):
+        self.kind, self.sh, self.affs, self.a, self.b, self.tag = kind, sh, affs, a, b, tag
+
+    def leaves(self):
+        if self.a is None:
+            return [self]
+        return self.a.leaves() + self.b.leaves()
+
+
+def build(env, expr, dep=None):
+    if expr[0] in SH.PRIMS:
+        kind, tag = expr[0], expr[1]
+        before = len(getattr(env, "_affs", []))
+        sh = SH.PRIMS[kind](env, tag=tag, dep=dep)
+        return Node(kind, sh, list(env._affs[before:]), tag=tag)
+    op, e1, e2 = expr
+    a, b = build(env, e1, dep), build(env, e2, dep)
+    sh = {"+": SH.union, "-": SH.cut, "&": SH.inter}[op](a.sh, b.sh)
+    return Node(op, sh, None, a, b)
+
+
+def expr_name(expr):
+    if expr[0] in SH.PRIMS:
+        return expr[0]
+    return "(%s%s%s)" % (expr_name(expr[1]), expr[0], expr_name(expr[2]))
+
+
+def expr_leaves(expr):
+    if expr[0] in SH.PRIMS:
+        return [expr]
+    return expr_leaves(expr[1]) + expr_leaves(expr[2])
+
+
+def pieces(kind):
+    return {"Interval": ["lb", "ub"], "Circle": ["arc"], "Sphere": ["arc"], "Parallelogram": ["e0", "e1", "e2", "e3"],
+            "Triangle": ["e0", "e1", "e2"]}[kind]
+
+
+def _aff_rows(aff, P, nrows):
+    """(nrows, dim) tensor of the shape parameter, one row per parameter row"""
+    base = aff.base.reshape(1, -1)
+    if aff.var is None:
+        return base * torch.ones((nrows, 1))
+    tcol = P[:, [aff.var]].as_tensor
+    return base + aff.slope.reshape(1, -1) * tcol
+
+
+def generic_point(env, leaf, piece, P, nrows):
+    """the generic point of a boundary piece of a primitive, as a tensor built from the symbolic shape parameters"""
+    L = env.L
+    vals = [_aff_rows(a, P, nrows) for a in leaf.affs]
+    if leaf.kind == "Interval":
+        return vals[0] if piece == "lb" else vals[1]
+    if leaf.kind in ("Circle", "Sphere"):
+        c, r = vals
+        w = env.tensor("w", (nrows, c.shape[1]))
+        we = SH.elems(env, w)
+        d = c.shape[1]
+        for i in range(nrows):
+            env.assume(L.eq(sum(x * x for x in we[i * d:(i + 1) * d]), 1))
+        return c + r * w
+    o, c1, c2 = vals
+    if leaf.kind == "Parallelogram":
+        corners = [o, c1, c1 + c2 - o, c2]
+    else:
+        corners = [o, c1, c2]
+    i = int(piece[1:])
+    a, b = corners[i], corners[(i + 1) % len(corners)]
+    t = env.tensor("te", (nrows, 1))
+    for x in SH.elems(env, t):
+        env.assume(L.And(L.ge(x, 0), L.le(x, 1)))
+    return a + t * (b - a)
+
+
+def _orientation(env, node, rows, orient):
+    """vertex orientation of the polygon leaves: the leaf under test gets `orient`, all others counter-clockwise"""
+    L = env.L
+    for leaf in node.leaves():
+        if leaf.kind not in POLY:
+            continue
+        o = orient if (orient and node.a is None) else "pos"
+        for prm in rows:
+            det = leaf.sh.oset._frame(prm)[3]
+            env.assume(L.gt(det, 0) if o in ("pos", "ccw") else L.lt(det, 0))
+
+
+def _needs_bound(expr):
+    return any(l[0] == "Interval" for l in expr_leaves(expr)) or expr[0] not in SH.PRIMS
+
+
+def _normalise(env, expr, node, rows):
+    L = env.L
+    for prm in rows:
+        env.assume(node.sh.oset.positive(prm, L))
+    if _needs_bound(expr):
+        SH.bound_all_inputs(env, 16, rows)
+    for leaf in node.leaves():
+        if leaf.kind == "Interval":
+            for prm in rows:
+                env.assume(L.gt(leaf.sh.oset.volume(prm, L), L.num(TAU)))
 
 
 def _rows(o_pts, names, dims, space_vars):
@@ -52,76 +178,116 @@ def _as_rows(x):
     return [list(r) if isinstance(r, (list, tuple)) else [r] for r in x]
 
 
-def _orientation(env, sh, rows, orient):
-    if orient is None:
-        return
-    L = env.L
-    for prm in rows:
-        det = sh.oset._frame(prm)[3]
-        env.assume(L.gt(det, 0) if orient in ("pos", "ccw") else L.lt(det, 0))
+def _poly_operand(expr):
+    return expr[0] not in SH.PRIMS and any(l[0] in POLY for l in expr_leaves(expr))
 
 
-def _has_isclose_scale(name):
-    return "Interval" in name or any(c in name for c in "+-&")
+# ---- end to end: real sampler -> real normal ---------------------------------------------------
 
 
-def _goals_for(n, k, dim_of=None):
+def sampled_case(expr, method, n, k, orient=None, side=None, link_only=False, dep=None, **kw):
+    name = expr_name(expr) + ("[t]" if dep else "")
+    tag = name + ("/" + orient if orient else "") + ("/" + side if side else "")
+    cname = "%s/%s/%s/n%d/k%d" % ("sampled" if link_only else "normal", tag, method, n, k)
+
+    def body(env):
+        node = build(env, expr, dep)
+        sh = node.sh
+        P, rows = SH.params(env, sh.pvars, k)
+        _normalise(env, expr, node, rows)
+        _orientation(env, node, rows, orient)
+        bd = sh.dom.boundary if side is None else getattr(sh.dom, "boundary_" + side)
+        f = bd.sample_random_uniform if method == "random" else bd.sample_grid
+        pts = f(n=n, params=P)
+        nrm = None if link_only else bd.normal(pts, P)
+        names, dims = list(pts.space.keys()), [pts.space[v] for v in pts.space]
+        return dict(pts=pts, nrm=nrm, names=names, dims=dims, sh=sh, rows=rows, npts=len(pts))
+
     def goals(o, L, env):
         sh, rows = o["sh"], o["rows"]
         want = n * max(k, 1)
-        nrm = _as_rows(o["nrm"])
         d = sum(dd for _, dd in sh.space_vars)
         yield "one_point_per_draw", o["npts"] == want
-        yield "one_normal_per_point", len(nrm) == o["npts"] and all(len(r) == d for r in nrm)
         space_ok = [v for v in o["names"] if v in dict(sh.space_vars)] == [v for v, _ in sh.space_vars]
         yield "space", space_ok
-        if not space_ok or len(nrm) != o["npts"]:
+        if not space_ok:
             return
         pts = _rows(o["pts"], o["names"], o["dims"], sh.space_vars)
+        if link_only:
+            for i, p in enumerate(pts):
+                prm = rows[min(i // n, len(rows) - 1)] if k else {}
+                yield "sampled_point_on_a_piece[row%d]" % i, N.on_some_piece(sh.oset, p, prm, L)
+            return
+        nrm = _as_rows(o["nrm"])
+        yield "one_normal_per_point", len(nrm) == o["npts"] and all(len(r) == d for r in nrm)
+        if len(nrm) != o["npts"]:
+            return
         for i, (p, nu) in enumerate(zip(pts, nrm)):
             prm = rows[min(i // n, len(rows) - 1)] if k else {}
             yield "unit[row%d]" % i, N.unit(nu, L, UNIT_TOL)
             for cn, f in N.claims(sh.oset, p, nu, prm, L, TAU, UNIT_TOL):
                 yield "outward:%s[row%d]" % (cn, i), f
 
-    return goals
-
-
-def prim_case(name, mk, info, method, n, k, orient=None, side=None, **kw):
-    """real boundary sampler -> real normal(), primitives and concrete Boolean combinations"""
-    tag = name + ("/" + orient if orient else "") + ("/" + side if side else "")
-    cname = "normal/%s/%s/n%d/k%d" % (tag, method, n, k)
-    composite = info.get("fam") in ("bool", "nested")
-    poly_operand = composite and any(s in name for s in ("Parallelogram", "Triangle"))
-
-    def body(env):
-        sh = mk(env)
-        P, rows = SH.params(env, sh.pvars, k)
-        L = env.L
-        for prm in rows:
-            env.assume(sh.oset.positive(prm, L))
-        _orientation(env, sh, rows, orient)
-        if _has_isclose_scale(name):
-            SH.bound_all_inputs(env, 16, rows)
-        if name.startswith("Interval"):
-            for prm in rows:
-                env.assume(L.gt(sh.oset.volume(prm, L), L.num(TAU)))
-        bd = sh.dom.boundary if side is None else getattr(sh.dom, "boundary_" + side)
-        f = bd.sample_random_uniform if method == "random" else bd.sample_grid
-        pts = f(n=n, params=P)
-        nrm = bd.normal(pts, P)
-        names, dims = list(pts.space.keys()), [pts.space[v] for v in pts.space]
-        return dict(pts=pts, nrm=nrm, names=names, dims=dims, sh=sh, rows=rows, npts=len(pts))
-
     opts = dict(max_paths=64, max_decisions=64, max_forks_per_site=8)
     opts.update(kw)
-    # a Boolean combination evaluates BOTH operands' normals and discards one with torch.where: the
-    # discarded one may be 0/0 (a polygon asked about a point that is not on its boundary) although the
-    # result is finite -> finiteness of the result is then established through the unit-length goal
-    # (an undefined quotient is an unconstrained symbol / a NaN in the replay) instead of the obligations
-    return Case(cname, body, _goals_for(n, k), family="normal/" + tag,
-                params=dict(shape=name, method=method, n=n, k=k, orient=orient, side=side, **info),
-                check_obligations=not poly_operand, **opts)
+    # a Boolean combination evaluates BOTH operands' normals and discards one with torch.where: the discarded
+    # one may be 0/0 (a polygon asked about a point that is not on its boundary) although the result is finite
+    # -> finiteness of the result is then established through the unit-length goal (an undefined quotient is an
+    # unconstrained symbol / a NaN in the replay) instead of the obligations
+    return Case(cname, body, goals, family=("sampled/" if link_only else "normal/") + tag,
+                params=dict(shape=name, method=method, n=n, k=k, orient=orient, side=side),
+                check_obligations=not _poly_operand(expr), **opts)
+
+
+# ---- generic boundary point of a piece -> real normal -------------------------------------------
+
+
+def generic_case(expr, leaf_idx, piece, k=0, orient=None, dep=None, **kw):
+    name = expr_name(expr) + ("[t]" if dep else "")
+    leaf_e = expr_leaves(expr)[leaf_idx]
+    composite = expr[0] not in SH.PRIMS
+    where = ("%s%s:%s" % (leaf_e[0], leaf_e[1], piece)) if composite else piece
+    tag = name + ("/" + orient if orient else "")
+    cname = "generic/%s/%s/k%d" % (tag, where, k)
+
+    def body(env):
+        node = build(env, expr, dep)
+        sh = node.sh
+        P, rows = SH.params(env, sh.pvars, k)
+        nrows = max(k, 1)
+        L = env.L
+        _normalise(env, expr, node, rows)
+        _orientation(env, node, rows, orient)
+        leaf = node.leaves()[leaf_idx]
+        pt = generic_point(env, leaf, piece, P, nrows)
+        d = pt.shape[1]
+        el = SH.elems(env, pt)
+        prow = [el[i * d:(i + 1) * d] for i in range(nrows)]
+        prms = rows if k else [{}]
+        if composite:  # the point belongs to the boundary of the combination, clear of the other operand's boundary
+            for p, prm in zip(prow, prms):
+                env.assume(N.selected(sh.oset, p, prm, L, TAU))
+        X = sh.dom.space
+        nrm = sh.dom.boundary.normal(Points(pt.clone(), X), P)
+        return dict(nrm=nrm, p=prow, sh=sh, prms=prms, n=nrows, leaf=leaf.sh)
+
+    def goals(o, L, env):
+        sh = o["sh"]
+        d = sum(dd for _, dd in sh.space_vars)
+        nrm = _as_rows(o["nrm"])
+        yield "one_normal_per_point", len(nrm) == o["n"] and all(len(r) == d for r in nrm)
+        if len(nrm) != o["n"]:
+            return
+        for i, (p, nu, prm) in enumerate(zip(o["p"], nrm, o["prms"])):
+            yield "generic_point_on_piece[row%d]" % i, N.on_some_piece(o["leaf"].oset, p, prm, L)
+            yield "unit[row%d]" % i, N.unit(nu, L, UNIT_TOL)
+            for cn, f in N.claims(sh.oset, p, nu, prm, L, TAU, UNIT_TOL):
+                yield "outward:%s[row%d]" % (cn, i), f
+
+    opts = dict(max_paths=64, max_decisions=64, max_forks_per_site=8, split=("abs", "where"))
+    opts.update(kw)
+    return Case(cname, body, goals, family="generic/" + tag, params=dict(shape=name, piece=where, k=k, orient=orient),
+                check_obligations=not _poly_operand(expr), **opts)
 
 
 # ---- composition layer on arbitrary operands ----------------------------------------------
@@ -142,10 +308,10 @@ class _NStubBoundary(SH.StubBoundary):
         return super().normal(points, params, device)
 
 
-def abstract_case(op, n=2, nested=False):
+def abstract_case(op, n=2, with_params=False):
     """normal() of a union/cut/intersection boundary of ARBITRARY operands: the operand normal of the
     boundary part the point belongs to, sign flipped exactly for the removed part of a cut"""
-    cname = "abstract/%s%s" % ({"+": "union", "-": "cut", "&": "intersection"}[op], "/k2" if nested else "")
+    cname = "abstract/%s%s" % ({"+": "union", "-": "cut", "&": "intersection"}[op], "/params" if with_params else "")
 
     def body(env):
         X = tp.spaces.R2("x")
@@ -154,20 +320,19 @@ def abstract_case(op, n=2, nested=False):
         d = {"+": a + b, "-": a - b, "&": a & b}[op]
         qt = env.tensor("q", (n, 2))
         pts = Points(qt, X)
-        if nested:  # parameter rows are handed through to the operands
+        if with_params:  # parameter rows are handed through to the operands
             P, _ = SH.params(env, [("t", 1)], n)
             res = d.boundary.normal(pts, P)
         else:
             res = d.boundary.normal(pts)
-        asked = [x[0] for x in getattr(a, "asked_nrm", []) + getattr(b, "asked_nrm", []) + a.asked_bd + b.asked_bd + a.asked + b.asked]
-        nua = getattr(a, "t_normal", None)
-        nub = getattr(b, "t_normal", None)
-        return dict(res=res, nua=nua, nub=nub, ia=a.f_in, ib=b.f_in, oa=a.f_on, ob=b.f_on, asked=asked, q=qt,
-                    shape=list(res.shape), n=n, n_nrm=(len(getattr(a, "asked_nrm", [])), len(getattr(b, "asked_nrm", []))))
+        an, bn = getattr(a, "asked_nrm", []), getattr(b, "asked_nrm", [])
+        asked = [x[0] for x in an + bn + a.asked_bd + b.asked_bd + a.asked + b.asked]
+        return dict(res=res, nua=getattr(a, "t_normal", None), nub=getattr(b, "t_normal", None), ia=a.f_in, ib=b.f_in,
+                    oa=a.f_on, ob=b.f_on, asked=asked, q=qt, shape=list(res.shape), n=n, n_nrm=[len(an), len(bn)])
 
     def goals(o, L, env):
         yield "one_normal_per_row", o["shape"] == [o["n"], 2]
-        yield "each_operand_normal_asked_once", o["n_nrm"] == (1, 1)
+        yield "each_operand_normal_asked_once", o["n_nrm"] == [1, 1]
         if o["nua"] is None or o["nub"] is None:
             return
         for j, t in enumerate(o["asked"]):
@@ -177,57 +342,49 @@ def abstract_case(op, n=2, nested=False):
         for i in range(o["n"]):
             for gn, f in N.boolean_rule(op, o["ia"][i], o["oa"][i], o["ib"][i], o["ob"][i], o["res"][i], o["nua"][i], o["nub"][i], L):
                 yield "%s[row%d]" % (gn, i), f
-            # inductive step for the length: if the selected operand normal is a unit vector so is the result
-            sel_unit = L.And(N.unit(o["nua"][i], L, 0), N.unit(o["nub"][i], L, 0))
-            yield "unit_if_operands_unit[row%d]" % i, L.Implies(sel_unit, N.unit(o["res"][i], L, 0))
+            # inductive step for length/finiteness: the result is one of the operand normals up to sign
+            both = L.And(N.unit(o["nua"][i], L, 0), N.unit(o["nub"][i], L, 0))
+            yield "unit_if_operands_unit[row%d]" % i, L.Implies(both, N.unit(o["res"][i], L, 0))
 
     return Case(cname, body, goals, family=cname, params=dict(op=op, n=n))
 
 
 # ---- case list -------------------------------------------------------------------------
 
-
-def _prim(kind, dep=None):
-    return lambda env: SH.PRIMS[kind](env, dep=dep)
-
-
-def _bool(op, a, b):
-    f = {"+": SH.union, "-": SH.cut, "&": SH.inter}[op]
-    return lambda env: f(SH.PRIMS[a](env, tag="A"), SH.PRIMS[b](env, tag="B"))
-
-
-POLY_SPLIT = ("minmax", "abs", "where")
+I, C, S, PG, TR = ("Interval", "A"), ("Circle", "A"), ("Sphere", "A"), ("Parallelogram", "A"), ("Triangle", "A")
 
 
 def cases(tier):
     quick = tier == "quick"
     cs = []
-    prim = dict(fam="prim")
     # Interval: both end points, and the single-sided boundaries
     for n in (1, 2):
-        cs.append(prim_case("Interval", _prim("Interval"), prim, "random", n, 0))
+        cs.append(sampled_case(I, "random", n, 0))
     for n in (1, 2, 3):
-        cs.append(prim_case("Interval", _prim("Interval"), prim, "grid", n, 0))
+        cs.append(sampled_case(I, "grid", n, 0))
     for side in ("left", "right"):
-        cs.append(prim_case("Interval", _prim("Interval"), prim, "random", 2, 0, side=side))
-        cs.append(prim_case("Interval", _prim("Interval"), prim, "grid", 1, 0, side=side))
+        cs.append(sampled_case(I, "random", 2, 0, side=side))
+        cs.append(sampled_case(I, "grid", 1, 0, side=side))
     # Circle
     for n in (1, 2):
-        cs.append(prim_case("Circle", _prim("Circle"), prim, "random", n, 0))
+        cs.append(sampled_case(C, "random", n, 0))
     for n in (1, 3):
-        cs.append(prim_case("Circle", _prim("Circle"), prim, "grid", n, 0))
-    # polygons: one symbolic point (edge interiors, corner zones and corners are all reachable), grid points = corners
-    for kind, orients in (("Parallelogram", ("pos", "neg")), ("Triangle", ("ccw", "cw"))):
+        cs.append(sampled_case(C, "grid", n, 0))
+    # polygons: generic point of every edge (interior, corner zones, corners), both orientations
+    for e, orients in ((PG, ("pos", "neg")), (TR, ("ccw", "cw"))):
         for orient in orients:
-            cs.append(prim_case(kind, _prim(kind), prim, "random", 1, 0, orient=orient, split=POLY_SPLIT))
-            for n in ((1, 2) if quick else (1, 2, 3)):
-                cs.append(prim_case(kind, _prim(kind), prim, "grid", n, 0, orient=orient, split=POLY_SPLIT))
+            for pc in pieces(e[0]):
+                cs.append(generic_case(e, 0, pc, 0, orient=orient))
+        # link: the real boundary samplers return points on those edges (any orientation)
+        cs.append(sampled_case(e, "random", 1, 0, link_only=True))
+        cs.append(sampled_case(e, "random", 2, 0, link_only=True))
+        for n in ((1, 2, 3) if quick else (1, 2, 3, 4, 5)):
+            cs.append(sampled_case(e, "grid", n, 0, link_only=True))
     # composition layer on arbitrary operands
     for op in "+-&":
         cs.append(abstract_case(op))
-        cs.append(abstract_case(op, nested=True))
+        cs.append(abstract_case(op, with_params=True))
     # Boolean operations of intervals (linear queries)
     for op in "+-&":
-        nm = "(Interval%sInterval)" % op
-        cs.append(prim_case(nm, _bool(op, "Interval", "Interval"), dict(fam="bool", kind=op), "random", 1, 0))
+        cs.append(sampled_case((op, ("Interval", "A"), ("Interval", "B")), "random", 1, 0))
     return cs
